@@ -194,10 +194,24 @@ class Source:
                 break
         return dict(start=start, sig_start=sig_start, kw=m.start(), open=open_idx, close=close, end=close + 1)
 
+    def impl_spans(self, name):
+        pat = r'\bimpl(?:\s*<[^{]*?>)?\s+' + name + r'(?:\s*<[^{]*?>)?\s*(?:where[^{]*)?\{'
+        spans = []
+        for m in self.find_all(pat):
+            o = m.end() - 1
+            spans.append((o, self.match_close(o)))
+        return spans
+
     def fn(self, name, impl=None, span=None):
         if impl is not None:
-            it = self.item('impl', impl)
-            span = (it['open'], it['close'])
+            # a type may have several inherent impl blocks: the function must occur in exactly one of them
+            found = []
+            for sp in self.impl_spans(impl):
+                if self.find_all(r'\bfn\s+' + re.escape(name) + r'\s*[<(]', sp):
+                    found.append(sp)
+            if len(found) != 1:
+                raise AnchorLost(f'{self.path}: fn {name} found in {len(found)} `impl {impl}` blocks (need 1)')
+            span = found[0]
         return self.item('fn', name, span)
 
     def text_of(self, it, with_attrs=False):
